@@ -507,7 +507,12 @@ type internalRequest struct {
 }
 
 func (i *internalRequest) Execute(_ bool) {
-	panic("not implemented")
+	// Only reached if the backend answers an internal request with UNPREPARED for an id in the prepared cache.
+	// Internal requests can't be re-executed; fail the request instead of taking the whole process down.
+	select {
+	case i.err <- errors.New("unexpected attempt to re-execute an internal request"):
+	default:
+	}
 }
 
 func (i *internalRequest) Frame() interface{} {
